@@ -250,14 +250,10 @@ func (ex *Exec) check(st *State, fr *Frame, class, label string, goal Term, prop
 	}
 	if !ex.active(props) {
 		// obligations of other properties are discharged in those properties'
-		// runs; here they are part of the context (assumed, not reported)
-		// ... except the function's own postconditions and frame conditions:
-		// those are decided independently of each other in every run, and an
-		// unproved postcondition of another property must never make this
-		// property's postconditions vacuously true
-		if goal.B != 1 && class != "cover" && class != "post" && class != "frame" {
-			st.assume(goal)
-		}
+		// runs. Here they are neither reported NOR ASSUMED: assuming an
+		// obligation that a changed body no longer meets would make the rest of
+		// the path infeasible (or this property's clauses vacuously true) and
+		// hide a violation of the property being decided.
 		return
 	}
 	if len(props) == 0 && ex.prop != "" {
@@ -305,7 +301,18 @@ func (ex *Exec) endPath(st *State, how string) {
 	ex.paths = append(ex.paths, &PathResult{Fn: funcKey(ex.top), Desc: strings.Join(st.path, ","), Script: st.script, Notes: st.notes})
 }
 
-func (ex *Exec) safetyProps() []string { return []string{"C14"} }
+// safetyProps: a run-time failure (index, nil, overflow, explicit panic) in a
+// function breaks C14 and every property the function's contract serves - a
+// panic on a valid input is a refusal of that input.
+func (ex *Exec) safetyProps() []string {
+	m := map[string]bool{"C14": true}
+	if ex.topC != nil {
+		for p := range ex.topC.Props {
+			m[p] = true
+		}
+	}
+	return sortedKeys(m)
+}
 
 // ---------------------------------------------------------------- driver
 
